@@ -262,6 +262,17 @@ def tranp_tokens(source: str) -> list[str]:
 	return out
 
 
+_REUSED = []
+
+
+def reused_tokens(source: str) -> list[str]:
+	from rogw.tranp.implements.syntax.tranp.tokenizer import Tokenizer
+	from rogw.tranp.implements.syntax.tranp.token import SpecialSymbols
+	if not _REUSED:
+		_REUSED.append(Tokenizer())
+	return ['-' if t.string == SpecialSymbols.OpUnaryMinus.value else t.string for t in _REUSED[0].parse(source)]
+
+
 def raw_laws(source: str) -> tuple[str, str] | None:
 	from rogw.tranp.implements.syntax.tranp.tokenizer import Lexer
 	from rogw.tranp.implements.syntax.tranp.token import TokenDefinition, SpecialSymbols
@@ -307,6 +318,16 @@ def check_program(acc: Acc, case: dict) -> None:
 			acc.violation('tokens/raise', f'Tokenizer().parse raised {type(e).__name__}: {e}', one)
 			continue
 		acc.see('law', 'tokens-vs-cpython')
+		# one long-lived Tokenizer reads every text of the process (SyntaxParser keeps one): what an earlier text left behind - its
+		# indentation unit, an open bracket level - must not show in a later one
+		try:
+			reused = reused_tokens(text)
+		except Exception as e:  # noqa
+			reused = ['raise:' + type(e).__name__]
+		acc.see('law', 'long-lived-tokenizer')
+		if reused != tr:
+			i = next((j for j in range(min(len(tr), len(reused))) if tr[j] != reused[j]), min(len(tr), len(reused)))
+			acc.violation('tokens/history-dependent', f'token #{i}: a fresh Tokenizer {tr[max(0, i - 2):i + 3]!r} vs the long-lived one {reused[max(0, i - 2):i + 3]!r}', one)
 		if tr != py:
 			i = next((j for j in range(min(len(tr), len(py))) if tr[j] != py[j]), min(len(tr), len(py)))
 			acc.violation('tokens/differ', f'token #{i}: tranp {tr[max(0, i - 2):i + 3]!r} vs cpython {py[max(0, i - 2):i + 3]!r}', one)
